@@ -132,7 +132,7 @@ fn distinct<'a>(src: &mut Src, cands: &[&'a str], n: usize) -> Vec<&'a str> {
 
 pub fn gen_program(src: &mut Src) -> (String, Vec<String>) {
 	let mut classes = vec![];
-	let code = match src.below(14) {
+	let code = match src.below(15) {
 		13 => {
 			// imports of the session's files: the same file may have failed (or succeeded) earlier in the history
 			classes.push("imports".to_owned());
@@ -211,6 +211,29 @@ pub fn gen_program(src: &mut Src) -> (String, Vec<String>) {
 			let n = src.range(2, 8) as usize;
 			let ns = names(src, n);
 			format!("{{ {} }}", ns.iter().map(|k| format!("{k}: error 'failure in {k}'")).collect::<Vec<_>>().join(", "))
+		}
+		14 => {
+			// two objects with the same field names, compared: several fields could decide the outcome (one differs,
+			// another fails, a third fails differently), so the order in which the fields are visited is observable
+			classes.push("multi-error".to_owned());
+			classes.push("compared-objects-with-several-deciding-fields".to_owned());
+			let n = src.range(3, 10) as usize;
+			let ns = names(src, n);
+			let side = |src: &mut Src, right: bool| {
+				let items: Vec<String> = ns
+					.iter()
+					.map(|k| match src.below(4) {
+						0 => format!("{k}: 1"),
+						1 => format!("{k}: {}", if right { 2 } else { 1 }),
+						2 => format!("{k}: error 'failure in {k}'"),
+						_ => format!("{k}: std.extVar('missing_{k}')"),
+					})
+					.collect();
+				format!("{{ {} }}", items.join(", "))
+			};
+			let (l, r) = (side(src, false), side(src, true));
+			let op = *src.pick(&["L == R", "L != R", "std.equals(L, R)", "std.assertEqual(L, R)", "std.member([R], L)", "std.count([R, R], L)", "[L] == [R]", "{ k: L } == { k: R }"]);
+			format!("local L = {l}, R = {r}; {op}")
 		}
 		8 => {
 			classes.push("multi-error".to_owned());
@@ -328,7 +351,7 @@ pub fn check(src: &mut Src, with_cli: bool) -> CaseOut {
 }
 
 pub fn run(run: &Run) {
-	run.set_rule("programs biased towards hash-ordered internals (objects with 5-60 permuted/near-duplicate field names that are listed, manifested in every format, compared, patched, pruned, iterated; removed keys; missing fields and unknown variables with several equally similar suggestions; objects with several failing fields or assertions; duplicate computed names; arity errors; format key errors; stack-limit hits) plus type-directed programs. Each is rendered (value text, or full CompactFormat error text) on a fresh thread and must be byte-identical on: a thread with thousands of pre-interned strings and a leaked heap prefix; after a random history of succeeding/failing/stack-limited/infinitely-recursive evaluations; on one long-lived state after that history, twice in a row; and (sample) in three separate processes. Non-trivial = program of a hash-sensitive class or a history containing failures.");
+	run.set_rule("programs biased towards hash-ordered internals (objects with 5-60 permuted/near-duplicate field names that are listed, manifested in every format, compared, patched, pruned, iterated; removed keys; missing fields and unknown variables with several equally similar suggestions; objects with several failing fields or assertions; comparisons of two objects in which several fields decide differently (unequal, failing, failing otherwise); duplicate computed names; arity errors; format key errors; stack-limit hits) plus type-directed programs. Each is rendered (value text, or full CompactFormat error text) on a fresh thread and must be byte-identical on: a thread with thousands of pre-interned strings and a leaked heap prefix; after a random history of succeeding/failing/stack-limited/infinitely-recursive evaluations; on one long-lived state after that history, twice in a row; and (sample) in three separate processes. Non-trivial = program of a hash-sensitive class or a history containing failures.");
 	run.assume("address-space variation is produced by ASLR between processes and by heap/pool perturbation between threads on this platform and allocator only");
 	let counter = std::sync::atomic::AtomicU64::new(0);
 	let n = run.tier.pick(3_000, 50_000);
@@ -336,7 +359,7 @@ pub fn run(run: &Run) {
 		let k = counter.fetch_add(1, std::sync::atomic::Ordering::SeqCst);
 		check(src, k % 6 == 0)
 	});
-	for c in ["suggestion-tie", "multi-error", "big-object", "history-with-failure", "cli", "stack-limit", "near-limit", "imports"] {
+	for c in ["suggestion-tie", "multi-error", "compared-objects-with-several-deciding-fields", "big-object", "history-with-failure", "cli", "stack-limit", "near-limit", "imports"] {
 		run.require_class(c, 50);
 	}
 	let _ = HashMap::<u8, u8>::new();
